@@ -19,7 +19,8 @@ pub fn short_revert_string_optimization(source_unit: SourceUnit) -> HashSet<Loc>
             None => return optimization_locations,
         };
 
-    if !(solidity_version.1 >= 8 && solidity_version.2 >= 4) {
+    //Compare (major, minor, patch) as a whole so that e.g. 0.9.0 and 1.0.0 are not below 0.8.4
+    if solidity_version < (0, 8, 4) {
         let target_nodes = ast::extract_target_from_node(Target::FunctionCall, source_unit.into());
 
         for node in target_nodes {
